@@ -203,7 +203,7 @@ _Static_assert(N == 4, "SAME_BYTES enumerates the slots of capacity 4");
   for (int i = 0; i + 1 < N; ++i) if ((unsigned long)i + 1 < o.n) VF_ASSERT(cmp(C, P##_begin(&s)[i], P##_begin(&s)[i + 1]), "iteration order begin..end is strictly ascending under the comparator"); \
   VF_ASSERT(P##_size(&s) == o.n && P##_empty(&s) == (o.n == 0) && P##_max_size(&s) == N, "size/empty/max_size follow the view")
 #define H_OBSERVE_COMP(P, C) VF_ASSERT(P##_key_comp(&s, &x, &y) == cmp(C, x, y), "key_comp()/value_comp() are the set's ordering")
-#define H_OBSERVE_REV(P) VF_ASSERT(P##_rbegin_base(&s) == b + o.n && P##_rend_base(&s) == b, "rbegin().base() == end(), rend().base() == begin()")
+#define H_OBSERVE_REV(P) VF_ASSERT(P##_rbegin_base(&s) == b + o.n && P##_rend_base(&s) == b, "rbegin().base() == end(), rend().base() == begin()"); VF_ASSERT(P##_crbegin_base(&s) == b + o.n && P##_crend_base(&s) == b && P##_rbegin_c_base(&s) == b + o.n && P##_rend_c_base(&s) == b, "crbegin/crend and const rbegin/rend: base() == end() / begin()")
 #define H_OBSERVE_SS(P, C) void h_##P##_observe(void) { H_OBSERVE_CORE(P, C); H_OBSERVE_COMP(P, C); H_OBSERVE_REV(P); VF_ASSERT(P##_full(&s) == (o.n == N), "full() iff n == N"); VF_REACH(); }
 #define H_OBSERVE_FS(P, C) void h_##P##_observe(void) { H_OBSERVE_CORE(P, C); H_OBSERVE_COMP(P, C); H_OBSERVE_REV(P); VF_REACH(); }
 #define H_OBSERVE_FSI(P, C) void h_##P##_observe(void) { H_OBSERVE_CORE(P, C); H_OBSERVE_COMP(P, C); VF_REACH(); }
